@@ -230,3 +230,74 @@ def check_ff_orders(name,Top,kind,seed,ncycles=6):
       for r,v in nxt.items():
         if tr[t+1]['s.'+r]!=v: out.append(f"cycle {t}: register {r} became {tr[t+1]['s.'+r]} but the pre-edge reference gives {v}"); break
   return out
+
+# ------------------------------------------------------------------------------------------------ structural defects (C09)
+def check_defect(name,Top,expected):
+  import pymtl3.dsl.errors as E
+  try:
+    top=Top(); top.elaborate()
+  except Exception as e:
+    if expected is None: return [f"a design without structural defect fails elaboration with {type(e).__name__}: {str(e)[:100]!r}"]
+    exp=expected if isinstance(expected,(tuple,list)) else (expected,)      # two simultaneous defects: either corresponding error is acceptable
+    if not any(isinstance(e,getattr(E,x)) for x in exp): return [f"elaboration failed with {type(e).__name__} instead of {'/'.join(exp)}: {str(e)[:80]!r}"]
+    return []
+  if expected is not None: return [f"the design was accepted but must be rejected with {expected}"]
+  return []
+
+# ------------------------------------------------------------------------------------------------ nets (C08)
+def net_signature(top):
+  """canonical description of the nets: frozenset of (writer repr, frozenset of member reprs)."""
+  nets=set()
+  for w,sigs in top.get_all_value_nets():
+    nets.add((repr(w),frozenset(repr(x) for x in sigs)))
+  return frozenset(nets)
+
+def check_nets(group):
+  """group: list of (name, Top) that are permutations / side flips of one connection multiset. All must elaborate to the same nets and
+  writers; every net has exactly one writer which is one of its members; simulation gives every member the writer's value."""
+  out=[]; sigs=[]
+  for name,Top in group:
+    try:
+      top=Top(); top.elaborate(); s=net_signature(top)
+    except Exception as e:
+      out.append(f"{name}: elaboration failed with {type(e).__name__}: {str(e)[:100]!r}"); continue
+    for w,members in s:
+      if w=='None': out.append(f"{name}: net {sorted(members)} has no writer")
+      elif w not in members: out.append(f"{name}: writer {w} is not a member of its net {sorted(members)}")
+    sigs.append((name,s))
+  for name,s in sigs[1:]:
+    if s!=sigs[0][1]:
+      d=sorted((w,sorted(m)) for w,m in (s^sigs[0][1]))
+      out.append(f"{name} and {sigs[0][0]} (same connections, other order/sides) elaborate to different nets/writers: {d[:4]}")
+  return out
+
+def check_net_values(name,Top,seed,ncycles=3):
+  """every member of a net carries the writer's value after evaluation."""
+  from pymtl3 import DefaultPassGroup
+  from pymtl3.dsl import Const
+  from rtlvc.bvsem import locate_in, type_nbits
+  out=[]
+  top=Top(); top.elaborate()
+  nets=[(w,list(m)) for w,m in top.get_all_value_nets()]
+  def rng_of(x):
+    t=x.get_top_level_signal()
+    lo,hi=(0,type_nbits(t._dsl.Type)) if x is t else locate_in(x,t)
+    return repr(t),lo,hi
+  desc=[]
+  for w,ms in nets:
+    if w is None: continue
+    wd=('const',int(w._dsl.const)) if isinstance(w,Const) else rng_of(w)
+    desc.append((wd,[rng_of(m) for m in ms if not isinstance(m,Const)]))
+  inputs=input_ports(top)
+  top.apply(DefaultPassGroup()); top.sim_reset()
+  rng=random.Random(seed)
+  for t in range(ncycles):
+    drive(top,rng,inputs); top.sim_eval_combinational()
+    def get(d):
+      if d[0]=='const': return d[1]
+      return (val(top,d[0])>>d[1]) & ((1<<(d[2]-d[1]))-1)
+    for wd,ms in desc:
+      wv=get(wd)
+      for m in ms:
+        if get(m)!=wv: out.append(f"cycle {t}: net member {m} carries {get(m)} but its writer {wd} carries {wv}"); break
+  return out
